@@ -1157,6 +1157,7 @@ func checkSetVariablePrimitive(w *World, r *Report) {
 func checkSetNode(w *World, r *Report) {
 	checkSetVariablePrimitive(w, r)
 	checkNoVariableRemoval(w, r)
+	checkLoopAlwaysBound(w, r)
 	fn := w.ssaFunc(w.method("SetNode", "Render"))
 	setVar := w.method("RenderContext", "SetVariable")
 	evalM := w.method("RenderContext", "EvaluateExpression")
@@ -1683,4 +1684,120 @@ func checkNoVariableRemoval(w *World, r *Report) {
 	}
 	r.Counts["removals from a context's variable map"] = n
 	_ = bad
+}
+
+// checkLoopAlwaysBound — R09.13: the body of a for loop always sees `loop`.  In every function
+// of the for renderer that renders ForNode.body, no path from the function's entry reaches that
+// render without a binding of the name "loop" (SetVariable("loop", …), directly or through a
+// helper that binds it on every one of its paths).  Leaving the bookkeeping out when "nothing in
+// the body reads loop" judges the body by its text; an included template, a macro or a block
+// overridden by a child reads it all the same.
+func checkLoopAlwaysBound(w *World, r *Report) {
+	setVar := w.method("RenderContext", "SetVariable")
+	bindsLoopDirect := func(in ssa.Instruction) bool {
+		c, ok := in.(ssa.CallInstruction)
+		if !ok || calleeFunc(c) != setVar {
+			return false
+		}
+		args := callArgs(c)
+		s, ok := constString(args[0])
+		return ok && s == "loop"
+	}
+	// helpers that bind "loop" on every path to every return
+	always := map[*ssa.Function]bool{}
+	for changed := true; changed; {
+		changed = false
+		for _, g := range w.pkgFuncs() {
+			if always[g] || len(g.Blocks) == 0 {
+				continue
+			}
+			binds := func(in ssa.Instruction) bool {
+				if bindsLoopDirect(in) {
+					return true
+				}
+				if c, ok := in.(ssa.CallInstruction); ok {
+					if h := c.Common().StaticCallee(); h != nil && always[h] {
+						return true
+					}
+				}
+				return false
+			}
+			has := false
+			instrsOf(g, func(in ssa.Instruction) {
+				if binds(in) {
+					has = true
+				}
+			})
+			if !has {
+				continue
+			}
+			all, nret := true, 0
+			instrsOf(g, func(in ssa.Instruction) {
+				if _, ok := in.(*ssa.Return); ok {
+					nret++
+					if found, _ := existsPathAvoiding(g, in, binds, nil); found {
+						all = false
+					}
+				}
+			})
+			if all && nret > 0 {
+				always[g] = true
+				changed = true
+			}
+		}
+	}
+	n := 0
+	for _, fn := range w.pkgFuncs() {
+		instrsOf(fn, func(in ssa.Instruction) {
+			isBody := false
+			if c, ok := in.(ssa.CallInstruction); ok && c.Common().IsInvoke() {
+				for _, fr := range rendersOf(in) {
+					if fr.typ == "ForNode" && fr.field == "body" {
+						isBody = true
+					}
+				}
+			}
+			if !isBody {
+				return
+			}
+			n++
+			binds := func(x ssa.Instruction) bool {
+				if bindsLoopDirect(x) {
+					return true
+				}
+				if c, ok := x.(ssa.CallInstruction); ok {
+					if h := c.Common().StaticCallee(); h != nil && always[h] {
+						return true
+					}
+				}
+				return false
+			}
+			construct := "`loop` is bound before the loop body renders"
+			found, path := existsPathAvoiding(fn, in, binds, nil)
+			if found {
+				// the binding may sit in the caller (a body-rendering helper called per iteration)
+				if ins := realInEdges(fn); len(ins) > 0 {
+					okAll := true
+					for _, e := range ins {
+						if e.Site == nil {
+							okAll = false
+							break
+						}
+						if f2, _ := existsPathAvoiding(e.Caller.Func, e.Site, binds, nil); f2 {
+							okAll = false
+						}
+					}
+					if okAll {
+						found = false
+					}
+				}
+			}
+			if found {
+				r.bad("R09.13", ssaName(fn), construct, w.posOf(in.Pos()), "the loop body can be rendered on a path on which the name \"loop\" has not been bound (path "+strings.Join(path, " → ")+"): for such loops loop.index, loop.first … are missing — or are those of an enclosing loop — in everything the body renders that is not spelled out in the body itself (included templates, macros, overridden blocks)")
+			} else {
+				r.ok("R09.13", ssaName(fn), construct, w.posOf(in.Pos()), "every path to the body render binds \"loop\" first", true)
+			}
+		})
+	}
+	r.floor("renders of a for loop's body", n, 1)
 }
